@@ -23,6 +23,12 @@ using db_t = unodb::mutex_db<std::uint64_t, unodb::value_view>;
 #else
 using db_t = unodb::olc_db<std::uint64_t, unodb::value_view>;
 #endif
+static void olc_thread_init() {
+#if DBKIND == 2
+  static bool done = false;
+  if (!done) { done = true; static unodb::detail::set_qsbr_per_thread_in_main_thread reg; }   // registers this (only) thread with QSBR, as the library does at start-up
+#endif
+}
 static unodb::value_view vv(const std::uint8_t* b, std::size_t n) { return unodb::value_view{reinterpret_cast<const std::byte*>(b), n}; }
 
 // ---------------------------------------------------------------- reference shape of the path-compressed radix tree of a sorted key list
@@ -109,7 +115,7 @@ static bool get1(db_t& d, std::uint64_t k, std::uint8_t& out) {
 #if DBKIND == 1
   if (!r.first.has_value()) return false; out = r.first->size() ? static_cast<std::uint8_t>((*r.first)[0]) : 0; return true;
 #else
-  if (!r.has_value()) return false; out = r->size() ? static_cast<std::uint8_t>((*r)[0]) : 0; return true;
+  if (!r.has_value()) return false; out = r->size() ? static_cast<std::uint8_t>(r->begin()[0]) : 0; return true;
 #endif
 }
 template <unsigned N> static void build(db_t& d, const std::uint64_t (&keys)[N]) {
